@@ -463,6 +463,9 @@ Pat/Chain.vos Pat/Chain.vok Pat/Chain.required_vos: Pat/Chain.v Gen/PatConsts.vo
 Pat/ChainCompleteProofs.vo Pat/ChainCompleteProofs.glob Pat/ChainCompleteProofs.v.beautified Pat/ChainCompleteProofs.required_vo: Pat/ChainCompleteProofs.v Pat/Syntax.vo Pat/Sem.vo Pat/Matcher.vo Pat/MatcherProofs.vo Pat/Modifiers.vo Pat/MatchList.vo Pat/MatchListProofs.vo Pat/Chain.vo Pat/ChainProofs.vo Pat/ChainRun.vo Pat/ChainRunProofs.vo
 Pat/ChainCompleteProofs.vio: Pat/ChainCompleteProofs.v Pat/Syntax.vio Pat/Sem.vio Pat/Matcher.vio Pat/MatcherProofs.vio Pat/Modifiers.vio Pat/MatchList.vio Pat/MatchListProofs.vio Pat/Chain.vio Pat/ChainProofs.vio Pat/ChainRun.vio Pat/ChainRunProofs.vio
 Pat/ChainCompleteProofs.vos Pat/ChainCompleteProofs.vok Pat/ChainCompleteProofs.required_vos: Pat/ChainCompleteProofs.v Pat/Syntax.vos Pat/Sem.vos Pat/Matcher.vos Pat/MatcherProofs.vos Pat/Modifiers.vos Pat/MatchList.vos Pat/MatchListProofs.vos Pat/Chain.vos Pat/ChainProofs.vos Pat/ChainRun.vos Pat/ChainRunProofs.vos
+Pat/ChainEndProofs.vo Pat/ChainEndProofs.glob Pat/ChainEndProofs.v.beautified Pat/ChainEndProofs.required_vo: Pat/ChainEndProofs.v Pat/Syntax.vo Pat/Sem.vo Pat/Matcher.vo Pat/MatcherProofs.vo Pat/Modifiers.vo Pat/MatchList.vo Pat/MatchListProofs.vo Pat/Chain.vo Pat/ChainProofs.vo Pat/ChainRun.vo Pat/ChainRunProofs.vo Pat/ChainCompleteProofs.vo
+Pat/ChainEndProofs.vio: Pat/ChainEndProofs.v Pat/Syntax.vio Pat/Sem.vio Pat/Matcher.vio Pat/MatcherProofs.vio Pat/Modifiers.vio Pat/MatchList.vio Pat/MatchListProofs.vio Pat/Chain.vio Pat/ChainProofs.vio Pat/ChainRun.vio Pat/ChainRunProofs.vio Pat/ChainCompleteProofs.vio
+Pat/ChainEndProofs.vos Pat/ChainEndProofs.vok Pat/ChainEndProofs.required_vos: Pat/ChainEndProofs.v Pat/Syntax.vos Pat/Sem.vos Pat/Matcher.vos Pat/MatcherProofs.vos Pat/Modifiers.vos Pat/MatchList.vos Pat/MatchListProofs.vos Pat/Chain.vos Pat/ChainProofs.vos Pat/ChainRun.vos Pat/ChainRunProofs.vos Pat/ChainCompleteProofs.vos
 Pat/ChainProofs.vo Pat/ChainProofs.glob Pat/ChainProofs.v.beautified Pat/ChainProofs.required_vo: Pat/ChainProofs.v Gen/PatConsts.vo Pat/Syntax.vo Pat/Sem.vo Pat/Matcher.vo Pat/MatcherProofs.vo Pat/Chain.vo
 Pat/ChainProofs.vio: Pat/ChainProofs.v Gen/PatConsts.vio Pat/Syntax.vio Pat/Sem.vio Pat/Matcher.vio Pat/MatcherProofs.vio Pat/Chain.vio
 Pat/ChainProofs.vos Pat/ChainProofs.vok Pat/ChainProofs.required_vos: Pat/ChainProofs.v Gen/PatConsts.vos Pat/Syntax.vos Pat/Sem.vos Pat/Matcher.vos Pat/MatcherProofs.vos Pat/Chain.vos
